@@ -5,6 +5,7 @@
 
      Total          no position at which no rule matches (the scanner is built with `nodefault`: that would be fatal), and
                     the scan ends
+     LeavesInitial  the scan of any text ends in the start condition INITIAL
      Offsets        tokens lie inside the text in order, without overlap, non-empty; an identifier's lexeme is its text
      CommentOpaque  (mode "comment": the text is the BODY of a block comment and holds no star-slash)
                     pre /* body */ post  scans as  pre <blank> post - same tokens, same diagnostics, and the scanner is
@@ -34,6 +35,9 @@ Sc(t) == Scan(t, P.syntax, Types)
 Same(a, b) == Shape(a.toks) = Shape(b.toks) /\ a.errs = b.errs /\ a.cond = b.cond /\ a.mode = b.mode
 
 Total == Sc(Text).mode = "end"
+(* whatever the text - an unterminated comment included - the scanner is back in INITIAL when it has reported the end of the input: the start
+   condition is process-global, the next call would start in it (C15) *)
+LeavesInitial == Sc(Text).cond = "INITIAL"
 Offsets == LET r == Sc(Text) IN
            \A k \in DOMAIN r.toks : /\ 0 <= r.toks[k].a /\ r.toks[k].a < r.toks[k].b /\ r.toks[k].b <= Len(Text)
                                     /\ (k > 1 => r.toks[k - 1].b <= r.toks[k].a)
